@@ -41,6 +41,10 @@ pub fn marshal(
     marshal_header(msg, chosen_serial, buf)?;
     pad_to_align(8, buf);
 
+    if buf.len() + msg.get_buf().len() > crate::wire::MAX_MESSAGE_LEN {
+        return Err(crate::wire::errors::MarshalError::MessageTooLong);
+    }
+
     // set the correct message length
     insert_u32(
         msg.body.byteorder(),
